@@ -184,6 +184,8 @@ class World:
                      dh_dmom=mk("dh_dmom", ["pos", "mom"]), h=Native(h, "system.h"))
         if constrained:
             attrs["project_onto_cotangent_space"] = Native(project, "system.project_onto_cotangent_space")
+            attrs["constr"] = mk("constr", ["pos"])
+            attrs["jacob_constr"] = mk("jacob_constr", ["pos"])
         attrs["__any_class__"] = True  # the integrator contracts are for every compatible system class (isinstance tests fork)
         return Opaque("system", **attrs)
 
